@@ -1,6 +1,7 @@
 package main
 
 import (
+	"fmt"
 	"go/ast"
 	"go/token"
 	"go/types"
@@ -260,4 +261,77 @@ func init() {
 	register(&Rule{ID: "C19.R4", Prop: "C19", Floor: 2,
 		Doc: "from m import *: names come from __all__ when present and are bound as listed; the skip-leading-underscore filter is applied only in the branch without __all__",
 		Run: runC19R4})
+}
+
+// C19.R6: a module's code runs in the module's own dictionary, and that dictionary is never replaced. Importers that
+// obtained the module while its body was still running (an import cycle) hold the same dict the body fills in.
+func runC19R6(c *Ctx, r *Rep) {
+	nm := c.Method("py", "ModuleStore", "NewModule")
+	n := 0
+	for _, pk := range c.All {
+		for _, f := range c.Files(pk) {
+			for _, d := range f.Decls {
+				fd, ok := d.(*ast.FuncDecl)
+				if !ok || fd.Body == nil {
+					continue
+				}
+				// the variable that receives the new module
+				var modVar types.Object
+				ast.Inspect(fd.Body, func(nd ast.Node) bool {
+					as, ok := nd.(*ast.AssignStmt)
+					if !ok || len(as.Rhs) != 1 || len(as.Lhs) < 1 {
+						return true
+					}
+					if call, ok := as.Rhs[0].(*ast.CallExpr); ok && nm != nil && Callee(pk.TypesInfo, call) == nm {
+						if id, ok := as.Lhs[0].(*ast.Ident); ok {
+							modVar = pk.TypesInfo.Defs[id]
+							if modVar == nil {
+								modVar = pk.TypesInfo.Uses[id]
+							}
+						}
+					}
+					return true
+				})
+				if modVar == nil {
+					continue
+				}
+				id := declID(pk, fd)
+				ast.Inspect(fd.Body, func(nd ast.Node) bool {
+					switch x := nd.(type) {
+					case *ast.CallExpr:
+						fn := Callee(pk.TypesInfo, x)
+						if fn == nil || fn.Name() != "RunCode" || len(x.Args) < 3 {
+							return true
+						}
+						if sig, ok := fn.Type().(*types.Signature); !ok || sig.Recv() == nil {
+							return true
+						}
+						n++
+						r.analysed(id)
+						want := modVar.Name() + ".Globals"
+						okArgs := exprStr(x.Args[1]) == want && exprStr(x.Args[2]) == want
+						r.check(okArgs, "owndict|"+id+"|code runs in the module's dictionary", x.Pos(),
+							"the module's code is run with the module's own Globals as globals and locals",
+							fmt.Sprintf("%s runs the module's code with globals=%s, locals=%s instead of %s: what the body defines does not appear in the dictionary other importers of the (already registered) module hold — in an import cycle the partner sees an empty module and its writes are lost", id, exprStr(x.Args[1]), exprStr(x.Args[2]), want))
+					case *ast.AssignStmt:
+						for _, l := range x.Lhs {
+							if exprStr(l) == modVar.Name()+".Globals" {
+								r.bad("owndict|"+id+"|Globals replaced", x.Pos(), "%s assigns %s.Globals after the module was created and registered: importers that already hold the module keep the old dictionary", id, modVar.Name())
+							}
+						}
+					}
+					return true
+				})
+			}
+		}
+	}
+	if n == 0 {
+		r.undecided("owndict|sites", token.NoPos, "no function that creates a module and runs its code found")
+	}
+}
+
+func init() {
+	register(&Rule{ID: "C19.R6", Prop: "C19", Floor: 1,
+		Doc: "a module's code runs in the module's own dictionary (globals and locals are the Globals of the module just created) and that dictionary is not replaced afterwards, so every importer — also one inside an import cycle — sees what the body defines",
+		Run: runC19R6})
 }
